@@ -18,6 +18,11 @@ open Num
 section
 variable {α : Type} [Num α]
 
+/-- a fold with early exit (the loop of `projString` with an arbitrary body) -/
+def foldKVs' (step : SR α → Str → Except Err (SR α)) (sr : SR α) : List Str → Except Err (SR α)
+  | [] => .ok sr
+  | x :: r => do let sr' ← step sr x; foldKVs' step sr' r
+
 /-- the PARAMETER switch of the current source is the model's `paramSet` -/
 theorem genParamSet_eq (sr : SR α) (name : Str) (val : α) : genParamSet sr name val = paramSet sr name val := by
   unfold genParamSet paramSet
@@ -91,5 +96,85 @@ theorem wktgen_source_pins :
         "latitude_of_center", "longitude_of_center", "central_meridian"].all fun n => (genParamTable.lookup n).isSome) = true
     ∧ genWktHead = "sr := NewSR() ;; err := sr.parseWKTSection([]string{}, wkt)" ∧ genWktReturn = "return sr, err" := by
   decide +kernel
+
+end GeomV.C20
+
+/-! ## projString.go -/
+namespace GeomV.C20
+open Num
+section
+variable {α : Type} [Num α]
+
+/-- the `switch paramName` of `projString` of the current source is the model's `projKV`: every key that stores a text,
+sets a flag or reads a number (19 numeric keys, 10 of them in degrees) TRANSLATED; the five cases of another shape
+(`genProjHandModelled`) are the model's own -/
+theorem genProjKV_eq (sr : SR α) (name val : Str) : genProjKV sr name val = projKV sr name val := by
+  unfold genProjKV projKV
+  simp only [decide_eq_true_eq, Bool.or_eq_true]
+  repeat (apply ite_congr rfl ?_ (fun _ => ?_); · intro _; rfl)
+  rfl
+
+omit [Num α] in
+/-- the statement after the loop of `projString` of the current source is the model's `lowerDatum` -/
+theorem genLowerDatum_eq (sr : SR α) : genLowerDatum sr = lowerDatum sr := by
+  unfold genLowerDatum lowerDatum
+  by_cases h : sr.datumCode = s "WGS84" <;> simp [h]
+
+/-- `projString` of the model, written with the regenerated switch and tail -/
+theorem projString_gen (d : Str) :
+    projString (α := α) d =
+      (do let sr ← foldKVs' (fun sr seg => genProjKV sr (itemKV seg).1 (itemKV seg).2) newSR ((splitOn '+' d).drop 1)
+          pure (genLowerDatum sr)) := by
+  have hf : ∀ (l : List Str) (sr : SR α),
+      foldItems sr l = foldKVs' (fun sr seg => genProjKV sr (itemKV seg).1 (itemKV seg).2) sr l := by
+    intro l
+    induction l with
+    | nil => intro sr; rfl
+    | cons x r ih =>
+      intro sr
+      simp only [foldItems, foldKVs', projItem, genProjKV_eq]
+      cases projKV sr (itemKV x).1 (itemKV x).2 with
+      | error e => rfl
+      | ok sr' => simpa [bind, Except.bind, genProjKV_eq] using ih sr'
+  unfold projString
+  simp only [hf, genLowerDatum_eq]
+
+end
+
+/-- exactly these five cases of `projString`'s switch are hand-modelled -/
+theorem genProjHandModelled_pin : genProjHandModelled = ["towgs84", "units", "pm", "nadgrids", "axis"] := by decide +kernel
+
+end GeomV.C20
+
+/-! ## deriveConstants.go -/
+namespace GeomV.C20
+open Num
+
+/-- the numeric constants of the current source (`epsln`, `sixth`, `ra4`, `ra6` of deriveConstants.go, `deg2rad` of
+projString.go, read as exact rationals) are the model's -/
+theorem gen_consts_eq : gen_epsln = epslnQ ∧ gen_sixth = sixthQ ∧ gen_ra4 = ra4Q ∧ gen_ra6 = ra6Q ∧ gen_deg2rad = deg2radQ := by
+  decide +kernel
+
+section
+variable {α : Type} [Num α]
+
+/-- the statements of `DeriveConstants` of the current source between the table lookups and the datum object —
+`B` from `1/f`, the sphere test (`Rf == 0 || |A − B| < epsln`), `A2`, `B2`, `Es`, `E`, the `+R_A` radius, `Ep2`, the default
+`K0 = 1`, the default axis — are the model's `dcB … dcAxis`, statement for statement -/
+theorem genDeriveArith_eq (sr : SR α) :
+    genDeriveArith sr = dcAxis (dcK0 (dcEp2 (dcRa (dcSquares (dcSphere (dcB sr)))))) := by
+  unfold genDeriveArith dcAxis dcK0 dcEp2 dcRa dcSquares dcSphere dcB
+  simp only [decide_eq_true_eq, gen_consts_eq.1, gen_consts_eq.2.1, gen_consts_eq.2.2.1, gen_consts_eq.2.2.2.1,
+    show s "" = ([] : Str) from rfl]
+  all_goals rfl
+
+/-- `deriveCore` of the model, written with the regenerated statements -/
+theorem deriveCore_gen (sr : SR α) : deriveCore sr = genDeriveArith (dcEllps (dcDatum sr)) := by
+  rw [genDeriveArith_eq]; rfl
+
+end
+
+/-- the order of the statement groups of `DeriveConstants`: datum table, ellipsoid table, the translated run, datum object -/
+theorem genDeriveFrame_pin : genDeriveFrame.length = 4 ∧ genDeriveFrame[2]? = some "<translated>" := by decide +kernel
 
 end GeomV.C20
